@@ -30,6 +30,8 @@ size_t g_notifies, g_pred_evals;
 struct Runnable *g_wtask; size_t g_wtask_runs, g_wtask_deletes;
 struct Thread *g_wthread; size_t g_wthread_joins, g_wthread_deletes, g_starts;
 struct Thread *g_last_joined;
+/* C07 task ownership: the task a worker has taken out of the queue (exclusive from that moment on) */
+struct Runnable *g_taken; size_t g_taken_runs, g_taken_deletes; size_t g_last_read_idx; _Bool g_read_valid;
 size_t g_wi, g_wq;     /* watched positions in the pool list / the task queue */
 #ifndef LCAP_MAX
 #define LCAP_MAX ((size_t)1 << 20)
